@@ -79,6 +79,40 @@ type cnode struct {
 	mu       sync.Mutex
 	seen     map[int]int
 	closedBy []int
+	reopens  int64
+}
+
+// reopenProbe: at quiescence ONE Broker.Reopen must reach every node OBJECT linked by a registered pipeline (an id that was rebound
+// names two objects: the pipelines registered before the rebinding still link the old one).  "" if it did.
+func (w *world) reopenProbe() string {
+	_, graphs := w.b.VerifSnapshot()
+	type where struct{ t, p, id string }
+	linked := map[*cnode]where{}
+	before := map[*cnode]int64{}
+	for _, g := range graphs {
+		for _, p := range g.Pipelines {
+			for _, l := range p.Nodes {
+				if h, ok := l.Node.(*cnode); ok {
+					linked[h] = where{string(g.EventType), string(p.ID), string(l.ID)}
+					before[h] = atomic.LoadInt64(&h.reopens)
+				}
+			}
+		}
+	}
+	if err := w.b.Reopen(context.Background()); err != nil {
+		return fmt.Sprintf("Broker.Reopen at quiescence: %v", err)
+	}
+	var miss []string
+	for h, wh := range linked {
+		if atomic.LoadInt64(&h.reopens) == before[h] {
+			miss = append(miss, fmt.Sprintf("object %d (node id %q, pipeline %q of type %q)", h.obj, wh.id, wh.p, wh.t))
+		}
+	}
+	if len(miss) == 0 {
+		return ""
+	}
+	sort.Strings(miss)
+	return fmt.Sprintf("Broker.Reopen at quiescence did not reopen %d of the %d node objects linked by registered pipelines: %s", len(miss), len(linked), strings.Join(miss, "; "))
 }
 
 func (n *cnode) Process(ctx context.Context, e *el.Event) (*el.Event, error) {
@@ -92,7 +126,7 @@ func (n *cnode) Process(ctx context.Context, e *el.Event) (*el.Event, error) {
 	}
 	return e, nil // every harness node passes the event on: a Send reaches every node of every registered pipeline
 }
-func (n *cnode) Reopen() error     { return nil }
+func (n *cnode) Reopen() error     { atomic.AddInt64(&n.reopens, 1); return nil }
 func (n *cnode) Type() el.NodeType { return n.typ }
 func (n *cnode) Close(ctx context.Context) error {
 	id, _ := ctx.Value(opKey{}).(int)
@@ -378,6 +412,7 @@ type outcome struct {
 	sends  []sendRec
 	final  Final
 	panics []string
+	reopen string // what reopenProbe found
 }
 
 // a history that does not finish within the watchdog: the Broker is abandoned (its goroutines stay blocked), the goroutine
@@ -594,6 +629,7 @@ func runCaseRaw(c Case, readers bool) (out outcome) {
 	sort.Slice(out.sends, func(i, j int) bool { return out.sends[i].inv < out.sends[j].inv })
 	if !readers {
 		out.final = w.observe(types)
+		out.reopen = w.reopenProbe()
 	}
 	return out
 }
@@ -848,6 +884,7 @@ type emitter struct {
 	next    int
 	stats   map[string]int
 	panics  []string
+	reopen  []string
 	sigs    map[string]bool
 	nontriv int
 }
@@ -867,6 +904,9 @@ func (e *emitter) emit(c Case) {
 	}
 	if len(o.panics) > 0 {
 		return
+	}
+	if o.reopen != "" && len(e.reopen) < 20 {
+		e.reopen = append(e.reopen, fmt.Sprintf("case %d: %s", c.ID, o.reopen))
 	}
 	if err := e.cf.Add(caseLit(c.ID, o)); err != nil {
 		panic(err)
@@ -1057,7 +1097,7 @@ func finish(e *emitter, out string) {
 		files = []string{}
 	}
 	summary := map[string]interface{}{"stats": e.stats, "files": files, "cases": e.cf.Total, "distinct_nontrivial": e.nontriv,
-		"panics": e.panics, "seed": hc.Seed(), "hangs": len(hangs)}
+		"panics": e.panics, "reopen_misses": e.reopen, "seed": hc.Seed(), "hangs": len(hangs)}
 	js, _ := json.MarshalIndent(summary, "", " ")
 	os.WriteFile(out+"/cases_summary.json", js, 0o644)
 	fmt.Printf("conch: %d cases in %d files, %d panics\n", e.cf.Total, len(e.cf.Files), len(e.panics))
